@@ -33,6 +33,7 @@ class Pol:
         self.track_inv = track_inv  # atoms met in a denominator are written "1/atom"
         self.track_coef = track_coef  # numeric literals other than 0, 1, -1 become atoms "#<magnitude>"
         self.opaque = set(opaque)  # local names kept as atoms instead of being substituted
+        self.opaque_label = dict(opaque) if isinstance(opaque, dict) else {}  # name -> atom text (so that rules need not know the name)
         self.du = get_defuse(func, P)
         self.unknown = []  # opaque constructs met
 
@@ -147,7 +148,7 @@ class Pol:
 
     def _var(self, name, stmt, seen):
         if name in self.opaque:
-            return [(1, frozenset({name}))]
+            return [(1, frozenset({self.opaque_label.get(name, name)}))]
         rd = self.du.reaching(stmt, name) if stmt is not None else []
         if not rd:
             if not self.du.all_defs(name):
@@ -268,6 +269,16 @@ class Pol:
                 for s, at in T(a, stmt, scope, seen):
                     atoms |= at
             return [(0 if name in ("log", "solve", "power") else 1, frozenset(f"{name}({x})" for x in atoms) or frozenset())] if atoms else [(1, frozenset())]
+        # a zero-argument method of the same object (self._compute_uprod()): a derived quantity of the object's attributes -
+        # its terms are those of what it returns (same attribute atoms as if the expression were written in place)
+        if isinstance(fn, ast.Attribute) and isinstance(fn.value, ast.Name) and fn.value.id == (self.f.self_name or "") and not args and not e.keywords and getattr(self, "_depth", 0) < 2:
+            tg = [t[1] for t in self.P.resolve_callee(fn, self.f) if t[0] == "repo"]
+            if tg and tg[0].self_name == self.f.self_name:
+                sub = Pol(self.P, tg[0], opaque=self.opaque, track_inv=self.track_inv, track_coef=self.track_coef)
+                sub._depth = getattr(self, "_depth", 0) + 1
+                t_ = list(dict.fromkeys(sub.value_terms()))
+                if t_ and not sub.unknown:
+                    return t_
         # repository callee or unknown library call: opaque, unknown sign
         # the result is a fresh atom (its own polarity is +); what is inside is not visible to sign rules
         self.unknown.append(src(e.func))
